@@ -289,8 +289,13 @@ class Gen:
 
 # ---- rendering ----------------------------------------------------------------------------------
 
+SUBST = {}  # id(node) -> replacement text (used by C02's late-use context)
+
+
 def r(e, bit_as_cond=False):
     op = e[0]
+    if SUBST and id(e) in SUBST:
+        return SUBST[id(e)]
     if op == "port":
         return f"self.{e[2]}"
     if op == "ci":
@@ -515,3 +520,21 @@ def ev(e, env):
     if op == "all":
         return int(all(ev(x, env) for x in e[2]))
     raise AssertionError(op)
+
+
+def rt_index_picks(e, acc=None):
+    """outermost run-time index nodes whose index operand is a plain port (top-down, not descending into a pick)"""
+    acc = [] if acc is None else acc
+    if not (isinstance(e, list) and e and isinstance(e[0], str)):
+        if isinstance(e, (list, tuple)):
+            for x in e:
+                if isinstance(x, (list, tuple)):
+                    rt_index_picks(x, acc)
+        return acc
+    if e[0] == "rtindex" and e[3][0] == "port":
+        acc.append(e)
+        return acc
+    for x in e[1:]:
+        if isinstance(x, (list, tuple)):
+            rt_index_picks(x, acc)
+    return acc
